@@ -23,7 +23,7 @@ RunOk(e) ==
   /\ o.exit = x.exit                                        \* non-zero exactly when an error was reported ...
   /\ (o.exit # 0) <=> (o.errors > 0)                        \* ... and an error diagnostic was actually emitted
   /\ ToSet(o.started) = x.started                           \* all startable generators run - or none (C07 gate, --dry-run)
-  /\ ToSet(o.captured) = {i \in x.started : scn.gens[i] # "noread"}
+  /\ ToSet(o.captured) = {i \in x.started : scn.gens[i] \notin {"noread", "closeflood"}}
   /\ o.same_request                                         \* identical request + own arguments
   /\ ToSet(o.named) = x.failed                              \* one error names each failing generator, and only those
   /\ ToSet(o.filers) = x.filers                             \* files only from successfully decoded replies, others honoured
